@@ -171,16 +171,17 @@ class LagTag(fm.TimeDelayAdapter):
 class Relay(fm.TimeComponent):
     """takes everything from its input by transfer rule and republishes it on two outputs, each with one own metadata key"""
 
-    def __init__(self, name):
+    def __init__(self, name, grid=None):
         super().__init__()
-        self._name = name
+        self._name, self.grid0 = name, grid
         self._time = T0
 
     def _next_time(self):
         return self.time + H(1)
 
     def _initialize(self):
-        self.inputs.add(name="in", time=None, grid=None, units=None)
+        # optionally the relay wants its input in a layout of its own: what it republishes is then in that layout
+        self.inputs.add(name="in", time=None, grid=self.grid0, units=None)
         self.outputs.add(name="out")
         self.outputs.add(name="out2")
         rules = {o: [fm.tools.FromInput("in"), fm.tools.FromValue("origin", f"relay-{o}")] for o in ("out", "out2")}
@@ -247,7 +248,7 @@ class C07(Property):
                 grid=g,
                 units=rnd.choice(["m", "km", "s"] if is_prod else ["m", "km", "s", None, None]),
                 mask=rnd.choice(["FLEX", "FLEX", "NONE", "A", "B"] if is_prod else ["FLEX", "FLEX", "NONE", "A", "B", "rawA", None]),
-                foo=rnd.choice(["absent", "absent", "value", "fill"]),
+                foo=rnd.choice(["absent", "absent", "value", "fill"] + (["zero"] if is_prod else [])),
             )
 
         p = side(True)
@@ -277,13 +278,17 @@ class C07(Property):
             # a single value spread over the consumer's grid: grid-less producer, gridded consumer, plain masks
             p.update(grid=rnd.choice([None, "N0"]), mask=rnd.choice(["FLEX", "NONE"]))
             cons[0].update(grid=rnd.choice(["G", "Gr", "Gf", "X"]), mask=rnd.choice(["FLEX", None]))
+        relay_grid = None
         if adapter == "relay" and rnd.random() < 0.7:
             p.update(time=True, grid=p["grid"] or "G", mask="FLEX", foo=rnd.choice(["absent", "value"]))
             if rnd.random() < 0.7:
                 cons[0]["grid"] = rnd.choice([None, p["grid"]])
+            if p["grid"] == "G" and rnd.random() < 0.5:
+                relay_grid = rnd.choice(["Gr", "Gf"])
+                cons[0]["grid"] = rnd.choice([None, None, "G", relay_grid])
         order = list(range(1 + ncons))
         rnd.shuffle(order)
-        spec = dict(prod=p, cons=cons, adapter=adapter, order=order)
+        spec = dict(prod=p, cons=cons, adapter=adapter, order=order, relay_grid=relay_grid)
         if adapter in (None, "scale") and rnd.random() < 0.12:
             # static output (parameter provider); the consumers are ordinary timed inputs
             spec["static"] = True
@@ -301,7 +306,7 @@ class C07(Property):
         p, cons, ada = spec["prod"], spec["cons"], spec["adapter"]
         unconstrained = False
         exp = []
-        pgrid, ptime, pfoo = p["grid"], p["time"], p["foo"]
+        pgrid, ptime, pfoo = p["grid"], p["time"], ("value" if p["foo"] == "zero" else p["foo"])  # a falsy value is a value
         # with two consumers the producer's unset fields are filled by whoever exchanges first
         if len(cons) == 2:
             for fld in ("grid", "time"):
@@ -320,6 +325,8 @@ class C07(Property):
             if ada == "relay" and (not ptime or pgrid is None or pfoo == "fill" or pmask != "FLEX"):
                 # the relay takes everything from the producer: only fully declared producers are judged through it
                 return "unconstrained", None, True
+            if ada == "relay" and spec.get("relay_grid"):
+                pgrid = spec["relay_grid"]  # downstream of the relay its own layout of the producer's geometry is what is published
             if ada == "v2g":
                 # producer must be grid-less; adapter output grid comes from the consumer
                 if pgrid not in (None, "N0"):  # ValueToGrid asks its source for 0-D data
@@ -404,6 +411,8 @@ class C07(Property):
         def meta(s, who):
             if s["foo"] == "value":
                 return dict(foo=f"{who}-foo")
+            if s["foo"] == "zero":
+                return dict(foo=0.0)  # set, but falsy
             if s["foo"] == "fill":
                 return dict(foo=None)
             return {}
@@ -432,7 +441,9 @@ class C07(Property):
         listed = [comps[i] for i in spec["order"]]
         relay = sink2 = None
         if ada == "relay":
-            relay, sink2 = Relay("R"), Dst("S2", fm.Info(time=None, grid=None, units=None))
+            relay, sink2 = Relay("R", grid_of(spec.get("relay_grid"))), Dst("S2", fm.Info(time=None, grid=None, units=None))
+            if spec.get("relay_grid"):
+                out.count("relays_with_a_layout_of_their_own")
             listed = listed + [relay, sink2] if spec["order"][0] == 0 else [sink2, relay] + listed
         composition = fm.Composition(listed, print_log=False, log_level=logging.CRITICAL + 10)
         adas = []
@@ -510,7 +521,7 @@ class C07(Property):
                     return out
                 # 5. fields filled from the other side
                 if e["foo"] is not None:
-                    want = {"C": f"C{k}-foo", "P": "P-foo"}.get(e["foo"])
+                    want = {"C": f"C{k}-foo", "P": ("P-foo" if p["foo"] == "value" else 0.0)}.get(e["foo"])
                     if want and info.meta.get("foo") != want:
                         out.viol("meta_not_carried", f"C{k} input meta foo={info.meta.get('foo')!r} expected {want!r}; {tag}", spec=spec)
                         return out
@@ -549,8 +560,8 @@ class C07(Property):
             if relay is not None:
                 # the relay's own link ends: its input agrees with the producer, each output carries its own key only
                 rin, o1, o2 = relay.inputs["in"].info, relay.outputs["out"].info, relay.outputs["out2"].info
-                want_meta = dict(units=fm.UNITS.Unit(p["units"]), **({"foo": "P-foo"} if p["foo"] == "value" else {}))
-                if dict(rin.meta) != want_meta or not (rin.grid == grid_of(p["grid"])):
+                want_meta = dict(units=fm.UNITS.Unit(p["units"]), **({"foo": "P-foo"} if p["foo"] == "value" else ({"foo": 0.0} if p["foo"] == "zero" else {})))
+                if dict(rin.meta) != want_meta or not (rin.grid == grid_of(spec.get("relay_grid") or p["grid"])):
                     out.viol("relay_input_metadata", f"input of the relaying component reports meta {dict(rin.meta)} grid {rin.grid}, its link carries {want_meta} / {p['grid']}; {tag}", spec=spec)
                     return out
                 got_o = (o1.meta.get("origin"), o2.meta.get("origin"), dsts[0].inputs["in"].info.meta.get("origin"), sink2.inputs["in"].info.meta.get("origin"))
@@ -561,8 +572,11 @@ class C07(Property):
                     out.viol("relay_input_metadata", f"producer output info gained the relay's key: {dict(prod.outputs['out'].info.meta)}; {tag}", spec=spec)
                     return out
                 out.count("relay_links_checked")
-            # output side: unset fields carry the consumers' values
+            # output side: unset fields carry the consumers' values, set ones keep their own
             oinfo = prod.outputs["out"].info
+            if p["foo"] in ("value", "zero") and oinfo.meta.get("foo") != ("P-foo" if p["foo"] == "value" else 0.0):
+                out.viol("producer_field_overwritten", f"producer declared foo={'P-foo' if p['foo'] == 'value' else 0.0!r}, after connect its output info says {oinfo.meta.get('foo')!r}; {tag}", spec=spec)
+                return out
             if oinfo.grid is None or oinfo.time is None or any(v is None for v in oinfo.meta.values()):
                 out.viol("output_unset_field", f"producer output info has unset fields after connect: {oinfo}; {tag}", spec=spec)
                 return out
@@ -576,7 +590,7 @@ class C07(Property):
 
     def coverage_gaps(self, counters, tier):
         need = ["exchanges", "successful_exchanges", "rejected_exchanges", "two_consumer_cases", "fixed_mask_metadata_checked", "data_checked_against_metadata",
-                "adapter_None", "adapter_scale", "adapter_v2g", "adapter_g2v", "adapter_regrid", "adapter_sum", "adapter_relay", "relay_links_checked", "metadata_handed_over_on_every_round", "static_outputs", "value_to_grid_data_checked", "adapter_dmeta", "adapter_ends_compared"]
+                "adapter_None", "adapter_scale", "adapter_v2g", "adapter_g2v", "adapter_regrid", "adapter_sum", "adapter_relay", "relay_links_checked", "metadata_handed_over_on_every_round", "static_outputs", "value_to_grid_data_checked", "adapter_dmeta", "adapter_ends_compared", "relays_with_a_layout_of_their_own"]
         return [f"{k} never observed" for k in need if not counters.get(k)]
 
 
